@@ -154,6 +154,21 @@ def narrow(fn, a, b, budget=None):
             r = {"b": bool(gjk.gjk_nesterov_accelerated_intersection(a, b))}
         elif fn == "primitives_distance":
             r = {"d": float(gjk.gjk_nesterov_accelerated_primitives_distance(a, b))}
+        elif fn == "primitives_distance_acc":
+            out = gjk.gjk_nesterov_accelerated_primitives(a, b, use_nesterov_acceleration=True)
+            r = {"b": bool(out[0]), "d": float(max(out[1], 0.0)), "it": int(out[3])}
+        elif fn == "jolt_distance_noclip":
+            d, p, q, _ = gjk.gjk_distance_jolt(a, b, max_distance_squared=float("inf"))
+            r = {"d": float(d), "p": _vec(p), "q": _vec(q)}
+        elif fn == "jolt_iterations":
+            from distance3d.gjk._gjk_jolt import gjk_distance_jolt_iterations
+            r = {"it": int(gjk_distance_jolt_iterations(a, b))}
+        elif fn == "original_iterations":
+            from distance3d.gjk._gjk_original import gjk_distance_iterations
+            r = {"it": int(gjk_distance_iterations(a, b))}
+        elif fn == "nesterov_iterations":
+            from distance3d.gjk._gjk_nesterov_accelerated import gjk_nesterov_accelerated_iterations
+            r = {"it": int(gjk_nesterov_accelerated_iterations(a, b))}
         elif fn == "primitives_intersection":
             r = {"b": bool(gjk.gjk_nesterov_accelerated_primitives_intersection(a, b))}
         elif fn == "mpr_intersection":
